@@ -158,3 +158,15 @@ def run_obligation_files(workdir, prefix, groups, body_fn, hdr=HDR, timeout=1500
             for (tag, name, expr), v in zip(obls, vals):
                 results.setdefault(tag, {})[name] = (v.startswith('true'))
     return results
+
+
+def report_hist_diff(rep, rec, key):
+    """deformed instance built from an object whose cached properties had been read before deform() must equal the
+    instance built from a fresh object"""
+    d = rec.get('used_then_deformed_diff')
+    if d:
+        rep.violation(dict(key, site='deform-after-use'),
+                      '%s: an object whose properties were read before deform() exposes different %s than a fresh object '
+                      'deformed the same way (stale cache)' % (rec['tag'], ', '.join(d)),
+                      {'instance': key, 'history': 'construct; read all cached properties; deform(%s, axis=%s)'
+                       % (rec['deformation'], rec['axis']), 'differs': d})
